@@ -127,6 +127,22 @@ def generate(tier):
                             c = build(sh, [ft], ts, [marks], salt)
                             if c:
                                 cases.append(c)
+    # wide: 4-5 fields (types cycle through the alphabet), at most one marker; 4 variants
+    for n in (4, 5):
+        for style in 'tn':
+            fl = S.Fields(style, n)
+            for rot in range(3):
+                ft = ''.join('abw'[(i + rot) % 3] for i in range(n))
+                for ts in (('c',), ('a', 'c'), ('w', 'c')) if tier != 'quick' else (('c',), ('w', 'c')):
+                    for marks in mark_sets(n, ts, 1 if len(ts) == 1 else 2):
+                        salt += 1
+                        for sh in (S.Shape('struct', [fl]), S.Shape('enum', [S.Fields('t', 1), S.Fields('n', 1), fl, S.Fields('t', 1)])):
+                            if sh.kind == 'struct':
+                                c = build(sh, [ft], ts, [marks], salt)
+                            else:
+                                c = build(sh, ['a', 'b', ft, 'w'], ts, [{}, {}, marks, {}], salt)
+                            if c:
+                                cases.append(c)
     # two variants, independent designations (at most one marker per variant)
     small = [S.Fields('t', 1), S.Fields('n', 2), S.Fields('t', 2)]
     for combo in itertools.product(small, repeat=2):
